@@ -73,6 +73,14 @@ def random_case(rng: random.Random):
     return {"A": A, "B": B, "flag": rng.random() < 0.5}
 
 
+def _rerun(case):
+    rec = {"A": case["A"], "B": case["B"], "flag": case["flag"]}
+    rec.update(run_real(rec))
+    return rec
+
+
+REPLAY = ("Trace_Compare", "Trace_Compare.cfg", _rerun, ())
+
 def run(ctx: Ctx):
     quick = ctx.tier == "quick"
     rng = random.Random(ctx.seed * 4099 + 19)
